@@ -1,4 +1,7 @@
 import PdtVerif.Lemmas.CommandLine
+import PdtVerif.Lemmas.CommandLineTimed
+import PdtVerif.Lemmas.CommandLineCosts
+import PdtVerif.Properties.C11
 /-!
 # C17 — command-line conversions invert each other and ignore worker count
 
@@ -399,6 +402,51 @@ theorem C17_er_relabels_lev (c : PdtVerif.Lev.Costs) {τ : Type} [DecidableEq τ
   intro f r h hinj
   simp only [lev_map_injOn c f r h hinj]
 
+/-- **C17_er_relabels_costs**: for EVERY cost triple, the count C02's model of
+`error_rate(norm=False, ins_cost, del_cost, sub_cost)` returns for a pair (paired cost/mistakes
+table with the code's tie-breaking, or the uniform-cost shortcut) does not depend on how the
+command numbered the tokens: the hypothesis `Relabels` of `C17_er_total` / `C17_er_batch` /
+`C17_er_command` holds for the count the command really adds up, non-unit costs included. -/
+theorem C17_er_relabels_costs (c : PdtVerif.Lev.Costs) {τ : Type} [DecidableEq τ] :
+    Relabels (τ := τ) (erC02 c) (erC02 c) := by
+  intro f r h hinj
+  unfold erC02
+  rw [errorRateCol_plain, errorRateCol_plain, valueAt_map c f r h hinj]
+
+/-- What that count is (C02): the number of edits of some minimum-cost alignment of the two
+token sequences; the plain Levenshtein distance when the three costs are equal and positive. -/
+theorem C17_er_costs_count (c : PdtVerif.Lev.Costs) {τ : Type} [DecidableEq τ] (r h : List τ) :
+    PdtVerif.ErrorRate.CountOfOptimal c r h (erC02 c r h) ∧
+      (c.ins = c.del → c.del = c.sub → 0 < c.sub →
+        ((erC02 c r h : Nat) : Rat) = PdtVerif.Lev.lev PdtVerif.Lev.unitCosts r h) := by
+  obtain ⟨⟨m, hv, hc⟩, hs⟩ := PdtVerif.ErrorRate.valueAt_spec c r r.length (le_refl _) h
+  rw [List.take_length] at hc hs
+  have e : erC02 c r h = m := by
+    unfold erC02
+    rw [errorRateCol_plain, hv]
+    have : ((m : Nat) : Rat) = ((m : Int) : Rat) := by push_cast; rfl
+    rw [this, Rat.floor_intCast]; simp
+  rw [e]
+  refine ⟨hc, fun h1 h2 h3 => ?_⟩
+  rw [← hv]
+  exact hs ((PdtVerif.ErrorRate.useShortcut_iff c).2 ⟨h1, h2, h3⟩)
+
+/-- **C17_er_total_costs**: the (repaired) error-rate command with `--costs i d s` (any triple)
+writes `erSpec` — `Σ edits / Σ |ref|`, `Σ edits / #utts` with `--distances`, or the per-utterance
+lines — where the edits of a pair are C02's count on the TOKENS of the pair: the number of edits
+of a minimum-cost alignment, for every batch size `≥ 1`, whatever ids the interning handed out. -/
+theorem C17_er_total_costs {τ υ : Type} [DecidableEq τ] (c : PdtVerif.Lev.Costs)
+    (distances perUtt : Bool) (batchSize : Nat) (hb : 1 ≤ batchSize) (pairs : List (Pair υ τ)) :
+    erCommand (erC02 c) distances perUtt batchSize pairs = erSpec (erC02 c) distances perUtt pairs ∧
+      ∀ p ∈ pairs, PdtVerif.ErrorRate.CountOfOptimal c p.2.1 p.2.2 (erC02 c p.2.1 p.2.2) :=
+  ⟨C17_er_total (erC02 c) (erC02 c) (C17_er_relabels_costs c) distances perUtt batchSize hb pairs,
+    fun p _ => (C17_er_costs_count c p.2.1 p.2.2).1⟩
+
+/-- Non-unit costs on a concrete pair: insertions and deletions at 1, substitutions at 3 — the
+cheapest way from `[1, 2]` to `[1, 3]` is a deletion and an insertion (2 edits, cost 2), not the
+substitution (1 edit, cost 3). -/
+example : erC02 ⟨1, 1, 3⟩ [1, 2] [1, 3] = 2 ∧ erC02 ⟨1, 1, 1⟩ [1, 2] [1, 3] = 1 := by decide +kernel
+
 /-- **C17_er_counterexample** — on the pinned tree, total mode with one empty reference:
 the command raises although `Σ edits / Σ |ref| = 1/3` is defined
 (`corpus/C17/er-total-empty-reference.json`). -/
@@ -534,5 +582,284 @@ example : trnToDir "p".toList ".pt".toList [("a", 1), ("b", 2)] none
     some [("pu1.pt".toList, [2]), ("pu2.pt".toList, [1, 2])] := by decide
 
 end Transcripts
+
+/-! ## ctm -> token dir -> ctm at the level of the two commands ("times within one frame") -/
+section Ctm
+open PdtVerif.Transcripts (Timed Transcripts Tok Utt2Wc timedOk timedLe specCtm readCtm writeCtm
+  C11_ctm C11_ctm_spec_mem C11_ctm_spec_order)
+
+/-- The utterances of a parsed ctm file as the pool of `ctm_to_torch_token_data_dir` receives
+them: `(utterance id, transcript)`; the file written is `prefix + utt + suffix`. -/
+def ctmItems (ts : Transcripts) : List (List Char × List Timed) :=
+  ts.map (fun ut => (ut.1.toList, ut.2))
+
+/-- **C17_ctm**: `ctm-to-torch-token-data-dir` followed by `torch-token-data-dir-to-ctm`, for
+every prefix and suffix, every frame shift `f > 0` ms, every vocabulary whose `id2token` inverts
+`token2id` on the tokens present, every `unk` setting, every `utt ↦ (wfn, chan)` mapping that
+`wc2utt` inverts (any injective mapping, or a channel), every order in which the pool writes the
+files, and all transcripts `ts` (what `read_ctm` returned for the input file: distinct utterance
+ids, times `0 ≤ start ≤ end`): both commands succeed; the transcripts handed to `write_ctm` are
+those of `ts` with every entry replaced by its frame round trip `frameBack` (utterances in sorted
+order); `write_ctm` succeeds, and reading the written ctm back gives exactly `specCtm` of them
+(C11_ctm composed). Every `frameBack` entry is within one frame of the original. -/
+theorem C17_ctm (le : List Char → List Char → Bool)
+    (htrans : ∀ a b c, le a b = true → le b c = true → le a c = true)
+    (htotal : ∀ a b, (le a b || le b a) = true)
+    (p s : List Char) (t2i : List (Tok × Int)) (i2t : List (Int × Tok)) (unk : Option Tok)
+    (f : Rat) (hf : 0 < f)
+    (m : Utt2Wc) (w2u : Option (String × String → Option String)) (wc : String → String × String)
+    (ts delivered : Transcripts) (hperm : delivered.Perm ts)
+    (hnd : (ts.map (·.1)).Nodup)
+    (hvocab : ∀ ut ∈ ts, ∀ x ∈ ut.2,
+      ∃ id, t2i.lookup (.s x.1) = some id ∧ i2t.lookup id = some (.s x.1))
+    (hok : ∀ ut ∈ ts, ∀ x ∈ ut.2, timedOk x = true)
+    (hwc : ∀ ut ∈ ts, m.get ut.1 = some (wc ut.1))
+    (hinv : ∀ ut ∈ ts,
+      (match w2u with | none => some (wc ut.1).1 | some g => g (wc ut.1)) = some ut.1) :
+    ∃ d mid lines,
+      timedToDir p s t2i f unk (ctmItems delivered) = .ok d ∧
+      dirToTimed le p s i2t f d = some mid ∧
+      mid.Perm (ts.map (fun ut => (ut.1, ut.2.map (frameBack f)))) ∧
+      writeCtm m mid = .ok lines ∧
+      readCtm w2u lines = .ok (specCtm wc mid) ∧
+      ∀ ut ∈ ts, ∀ x ∈ ut.2, CloseT (f / 1000) x (frameBack f x) := by
+  have hcn : ((ctmItems ts).map (·.1)).Nodup := by
+    have e : (ctmItems ts).map (·.1) = (ts.map (·.1)).map String.toList := by
+      simp [ctmItems, List.map_map, Function.comp_def]
+    rw [e]
+    exact List.pairwise_map.2 (hnd.imp (fun hne e => hne (String.toList_inj.1 e)))
+  obtain ⟨d, mid, h1, h2, h3, _⟩ := timed_roundtrip le htrans htotal p s t2i i2t unk f hf
+    (ctmItems ts) (ctmItems delivered) (hperm.map _) hcn
+    (by
+      intro e he x hx
+      obtain ⟨ut, hut, rfl⟩ := List.mem_map.1 he
+      exact hvocab ut hut x hx)
+    (by
+      intro e he x hx
+      obtain ⟨ut, hut, rfl⟩ := List.mem_map.1 he
+      exact hok ut hut x hx)
+  have e3 : (ctmItems ts).map (fun e => (String.ofList e.1, e.2.map (frameBack f)))
+      = ts.map (fun ut => (ut.1, ut.2.map (frameBack f))) := by
+    simp [ctmItems, List.map_map, Function.comp_def, String.ofList_toList]
+  rw [e3] at h3
+  have hmem : ∀ um ∈ mid, ∃ ut ∈ ts, um = (ut.1, ut.2.map (frameBack f)) := by
+    intro um hum
+    obtain ⟨ut, hut, rfl⟩ := List.mem_map.1 (h3.mem_iff.1 hum)
+    exact ⟨ut, hut, rfl⟩
+  obtain ⟨lines, hw, hr⟩ := C11_ctm m w2u mid wc
+    (by
+      intro um hum
+      obtain ⟨ut, hut, rfl⟩ := hmem um hum
+      exact hwc ut hut)
+    (by
+      intro um hum
+      obtain ⟨ut, hut, rfl⟩ := hmem um hum
+      exact hinv ut hut)
+    (by
+      have := (h3.map (·.1)).nodup_iff.2 (by simpa [List.map_map, Function.comp_def] using hnd)
+      exact this)
+    (by
+      intro um hum x hx
+      obtain ⟨ut, hut, rfl⟩ := hmem um hum
+      obtain ⟨x0, hx0, rfl⟩ := List.mem_map.1 hx
+      exact frameBack_ok f hf x0 (hok ut hut x0 hx0))
+  exact ⟨d, mid, lines, h1, h2, h3, hw, hr,
+    fun ut hut x hx => frameBack_close f hf x (hok ut hut x hx)⟩
+
+/-- **C17_ctm_times**: what the round trip of `C17_ctm` means entry by entry. Every utterance
+read back from the final ctm is an utterance of the original that has tokens, and its entries
+are — up to the order `write_ctm` mandates (by start, end, token) — the original entries with
+the same tokens and every start in `(start − shift, start]`, every end in
+`(end − shift, end + shift)`, `shift = f / 1000` s: "times within one frame". No utterance that
+has tokens is lost. -/
+theorem C17_ctm_times (f : Rat) (wc : String → String × String) (ts mid : Transcripts)
+    (hmid : mid.Perm (ts.map (fun ut => (ut.1, ut.2.map (frameBack f)))))
+    (hclose : ∀ ut ∈ ts, ∀ x ∈ ut.2, CloseT (f / 1000) x (frameBack f x)) :
+    (∀ ut' ∈ specCtm wc mid, ∃ ut ∈ ts, ut'.1 = ut.1 ∧ ut.2 ≠ [] ∧
+      ∃ l, ut'.2.Perm l ∧ List.Forall₂ (CloseT (f / 1000)) ut.2 l) ∧
+    ((specCtm wc mid).map (·.1)).Perm ((ts.filter (fun ut => !ut.2.isEmpty)).map (·.1)) := by
+  constructor
+  · intro ut' h'
+    obtain ⟨um, hum, e1, hp, hne, _⟩ := C11_ctm_spec_mem wc mid ut' h'
+    obtain ⟨ut, hut, rfl⟩ := List.mem_map.1 (hmid.mem_iff.1 hum)
+    refine ⟨ut, hut, e1, ?_, ut.2.map (frameBack f), hp, ?_⟩
+    · intro h0; apply hne; simp [h0]
+    · rw [List.forall₂_map_right_iff, List.forall₂_same]
+      exact fun x hx => hclose ut hut x hx
+  · refine (C11_ctm_spec_order wc mid).1.trans ?_
+    have h1 := (hmid.filter (fun ut => !ut.2.isEmpty)).map (·.1)
+    refine h1.trans ?_
+    apply List.Perm.of_eq
+    rw [List.filter_map, List.map_map]
+    have : ((fun (ut : String × List Timed) => !ut.2.isEmpty) ∘
+        fun (ut : String × List Timed) => (ut.1, ut.2.map (frameBack f)))
+        = fun ut => !ut.2.isEmpty := by
+      funext ut; simp
+    rw [this]
+    rfl
+
+/-- The hypotheses of `C17_ctm_times` are satisfiable (they are conclusions of `C17_ctm`). -/
+example : ∀ ut' ∈ specCtm (fun u => (u, "A"))
+      ([("u", [("a", (1/4 : Rat), (1/2 : Rat))])].map (fun ut => (ut.1, ut.2.map (frameBack 10)))),
+    ∃ ut ∈ [("u", [("a", (1/4 : Rat), (1/2 : Rat))])], ut'.1 = ut.1 ∧ ut.2 ≠ [] ∧
+      ∃ l, ut'.2.Perm l ∧ List.Forall₂ (CloseT (10 / 1000)) ut.2 l :=
+  (C17_ctm_times 10 _ _ _ (List.Perm.refl _) (fun ut hut x hx => by
+    apply frameBack_close 10 (by norm_num)
+    simp only [List.mem_cons, List.not_mem_nil, or_false] at hut
+    subst hut
+    simp only [List.mem_cons, List.not_mem_nil, or_false] at hx
+    subst hx
+    simp [timedOk]; norm_num)).1
+
+/-- The hypotheses of `C17_ctm` are satisfiable: two utterances, a zero-length token, 10 ms. -/
+example : ∃ d mid lines,
+    timedToDir "p_".toList ".pt".toList [(.s "a", 3), (.s "b", 5)] 10 none
+      (ctmItems [("u2", [("b", 1/2, 1/2)]), ("u1", [("a", 1/64, 1/32), ("b", 1/4, 1/2)])]) = .ok d ∧
+    dirToTimed (fun a b => decide (a ≤ b)) "p_".toList ".pt".toList [(3, .s "a"), (5, .s "b")] 10 d
+      = some mid ∧
+    mid.Perm ([("u1", [("a", 1/64, 1/32), ("b", 1/4, 1/2)]), ("u2", [("b", 1/2, 1/2)])].map
+      (fun ut => (ut.1, ut.2.map (frameBack 10)))) ∧
+    writeCtm (.chan "A") mid = .ok lines ∧
+    readCtm none lines = .ok (specCtm (fun u => (u, "A")) mid) ∧
+    ∀ ut ∈ [("u1", [("a", (1/64 : Rat), (1/32 : Rat)), ("b", 1/4, 1/2)]), ("u2", [("b", 1/2, 1/2)])],
+      ∀ x ∈ ut.2, CloseT (10 / 1000) x (frameBack 10 x) := by
+  apply C17_ctm (fun a b => decide (a ≤ b))
+    (by intro a b c h1 h2; simp only [decide_eq_true_eq] at *; exact le_trans h1 h2)
+    (by intro a b; simp only [Bool.or_eq_true, decide_eq_true_eq]; exact le_total a b)
+    _ _ _ _ none 10 (by norm_num) (.chan "A") none (fun u => (u, "A"))
+  · exact List.Perm.swap _ _ _
+  · decide
+  · intro ut hut x hx
+    simp only [List.mem_cons, List.not_mem_nil, or_false] at hut
+    rcases hut with rfl | rfl <;> simp only [List.mem_cons, List.not_mem_nil, or_false] at hx
+    · rcases hx with rfl | rfl
+      · exact ⟨3, by decide, by decide⟩
+      · exact ⟨5, by decide, by decide⟩
+    · subst hx; exact ⟨5, by decide, by decide⟩
+  · intro ut hut x hx
+    simp only [List.mem_cons, List.not_mem_nil, or_false] at hut
+    rcases hut with rfl | rfl <;> simp only [List.mem_cons, List.not_mem_nil, or_false] at hx
+    · rcases hx with rfl | rfl <;> simp [timedOk] <;> norm_num
+    · subst hx; simp [timedOk]
+  · intro ut _; rfl
+  · intro ut _; rfl
+
+end Ctm
+
+/-! ## TextGrid -> token dir -> TextGrid, one file through the two commands -/
+section TextGrid
+open PdtVerif.Transcripts (Timed Tok TierId TgSort TgWriteOpts timedOk readTextGrid writeTextGrid
+  writeTextGridVia isPointTier readBack fmt minList maxList tgForwarded C11_textgrid_roundtrip
+  C11_textgrid)
+
+/-- **C17_textgrid**: one utterance through `textgrids-to-torch-token-data-dir` and
+`torch-token-data-dir-to-textgrids --infer` (file naming: `C17_names_textgrid`; independence of
+the pool's order: `C17_perm`). `t` is what `read_textgrid` returned for the input file — a
+non-empty interval tier in tier order, `0 ≤ start < end` — for every frame shift `f > 0` ms,
+every vocabulary whose `id2token` inverts `token2id` on the tokens present, every `unk` setting,
+tier name and print precision: the rows are written; they pass the test of method 1 (interval
+tier); the inferred length `T = max frame · f / 1000` is accepted as `end_time` and `0.0` as
+`start_time`; `write_textgrid` (through its path branch, which drops `point_tier`) succeeds; and
+reading the written TextGrid (by index 0, −1 or by the tier's name) returns, in the same order,
+the entries `frameBack f x` rounded to the print precision. Each `frameBack f x` is within one
+frame of `x` (same token, start in `(start − shift, start]`, end in `(end − shift, end + shift)`),
+and the print rounding moves a time by at most half a unit of the last printed digit:
+"times within one frame" (+ print rounding). -/
+theorem C17_textgrid (t2i : List (Tok × Int)) (i2t : List (Int × Tok)) (unk : Option Tok)
+    (f : Rat) (hf : 0 < f) (tierName : String) (prec : Nat) (tier : TierId)
+    (t : List Timed) (hne : t ≠ [])
+    (hsorted : t.Pairwise (fun a b => a.2.1 ≤ b.2.1))
+    (hpos : ∀ x ∈ t, 0 ≤ x.2.1 ∧ x.2.1 < x.2.2)
+    (hvocab : ∀ x ∈ t, ∃ id, t2i.lookup (.s x.1) = some id ∧ i2t.lookup id = some (.s x.1))
+    (htier : tier = .idx 0 ∨ tier = .idx (-1) ∨ tier = .name tierName) :
+    ∃ rows g,
+      saveRows t2i f unk t = .ok rows ∧
+      tokToTextGrid tgForwarded i2t f tierName prec rows = .ok g ∧
+      readTextGrid .byStart g tier none = .ok
+        ((t.map (frameBack f)).map
+            (readBack prec (isPointTier (t.map (frameBack f)) { precision := prec })),
+          (fmt prec (minList ((t.map (frameBack f)).map (·.2.1)))).val,
+          (fmt prec (maxList ((t.map (frameBack f)).map (·.2.2)))).val) ∧
+      ∀ x ∈ t, CloseT (f / 1000) x (frameBack f x) ∧
+        (let y := readBack prec (isPointTier (t.map (frameBack f)) { precision := prec })
+            (frameBack f x)
+         y.1 = x.1 ∧
+         (frameBack f x).2.1 - (1/2) / ((10 ^ prec : Nat) : Rat) ≤ y.2.1 ∧
+         y.2.1 ≤ (frameBack f x).2.1 + (1/2) / ((10 ^ prec : Nat) : Rat) ∧
+         (frameBack f x).2.2 - (1/2) / ((10 ^ prec : Nat) : Rat) ≤ y.2.2 ∧
+         y.2.2 ≤ (frameBack f x).2.2 + (1/2) / ((10 ^ prec : Nat) : Rat)) := by
+  have hokx : ∀ x ∈ t, timedOk x = true :=
+    fun x hx => (timedOk_iff x).2 ⟨(hpos x hx).1, (hpos x hx).2.le⟩
+  set t2 := t.map (frameBack f) with ht2
+  set rows := t.map (rowF t2i f) with hrows
+  let o : TgWriteOpts :=
+    ⟨some 0, some (tgLength f rows), tierName, none, prec⟩
+  have hne2 : t2 ≠ [] := by
+    intro h; apply hne; simpa [ht2] using h
+  have hsorted2 : t2.Pairwise (fun a b => a.2.1 ≤ b.2.1) := by
+    rw [ht2, List.pairwise_map]
+    exact hsorted.imp (fun h => frameBack_start_mono f hf _ _ h)
+  have hst : ∀ s0, o.startTime = some s0 → s0 ≤ minList (t2.map (·.2.1)) := by
+    intro s0 hs0
+    have : s0 = 0 := by
+      have := Option.some.inj hs0; exact this.symm
+    subst this
+    apply le_minList
+    · intro h; apply hne2; simpa using h
+    · intro y hy
+      obtain ⟨x2, hx2, rfl⟩ := List.mem_map.1 hy
+      obtain ⟨x, hx, rfl⟩ := List.mem_map.1 hx2
+      exact ((timedOk_iff _).1 (frameBack_ok f hf x (hokx x hx))).1
+  have hen : ∀ e0, o.endTime = some e0 → maxList (t2.map (·.2.2)) ≤ e0 := by
+    intro e0 he0
+    have : e0 = tgLength f rows := (Option.some.inj he0).symm
+    subst this
+    apply maxList_le
+    · intro h; apply hne2; simpa using h
+    · intro y hy
+      obtain ⟨x2, hx2, rfl⟩ := List.mem_map.1 hy
+      obtain ⟨x, hx, rfl⟩ := List.mem_map.1 hx2
+      have hmem : rowF t2i f x ∈ rows := List.mem_map.2 ⟨x, hx, rfl⟩
+      have hle := (le_maxFrame rows _ hmem).2
+      have hc : (((rowF t2i f x).2.2 : Int) : Rat) ≤ ((maxFrame rows : Int) : Rat) := by
+        exact_mod_cast hle
+      have := mul_le_mul_of_nonneg_right hc hf.le
+      exact div_le_div_of_nonneg_right this (by norm_num)
+  obtain ⟨g, hw, _, hread⟩ := C11_textgrid_roundtrip t2 o tier hne2 hsorted2 hst hen htier
+  have hvia : writeTextGridVia tgForwarded t2 (tgOpts (tgLength f rows) tierName false prec)
+      = writeTextGrid t2 o := rfl
+  refine ⟨rows, g, saveRows_ok t2i f unk t (fun x hx => by
+    obtain ⟨id, h, _⟩ := hvocab x hx
+    exact ⟨id, h⟩), ?_, hread, ?_⟩
+  · have hm1 : tgMethod1 rows = true := rowF_method1 t2i f hf t hpos
+    have hback : backTimed i2t f rows = some t2 := backTimed_ok t2i i2t f hf t hvocab hokx
+    simp only [tokToTextGrid, hm1, Bool.not_true, Bool.false_eq_true, if_false, hback, hvia, hw]
+  · intro x hx
+    refine ⟨frameBack_close f hf x (hokx x hx), ?_⟩
+    have := C11_textgrid t2 o (by intro h; exact absurd h (by simp [o]))
+      (frameBack f x) (List.mem_map.2 ⟨x, hx, rfl⟩)
+    exact this
+
+/-- The hypotheses of `C17_textgrid` are satisfiable: two adjacent intervals, 10 ms frames. -/
+example : ∃ rows g,
+    saveRows [(.s "a", 3), (.s "b", 5)] 10 none [("a", 1/64, 1/8), ("b", 1/8, 1/2)] = .ok rows ∧
+    tokToTextGrid tgForwarded [(3, .s "a"), (5, .s "b")] 10 "transcript" 3 rows = .ok g := by
+  obtain ⟨rows, g, h1, h2, _, _⟩ := C17_textgrid [(.s "a", 3), (.s "b", 5)]
+    [(3, .s "a"), (5, .s "b")] none 10 (by norm_num) "transcript" 3 (.idx 0)
+    [("a", 1/64, 1/8), ("b", 1/8, 1/2)] (by simp) (by simp; norm_num)
+    (by
+      intro x hx
+      simp only [List.mem_cons, List.not_mem_nil, or_false] at hx
+      rcases hx with rfl | rfl <;> norm_num)
+    (by
+      intro x hx
+      simp only [List.mem_cons, List.not_mem_nil, or_false] at hx
+      rcases hx with rfl | rfl
+      · exact ⟨3, by decide, by decide⟩
+      · exact ⟨5, by decide, by decide⟩)
+    (.inl rfl)
+  exact ⟨rows, g, h1, h2⟩
+
+end TextGrid
 
 end PdtVerif.CommandLine
